@@ -417,6 +417,8 @@ class AsyncClient(base_client.BaseClient):
             self.ping_timeout = ping_timeout
             self.current_transport = 'websocket'
 
+            # the connect handler may already use the connection
+            self.ws = ws
             self.state = 'connected'
             base_client.connected_clients.append(self)
             await self._trigger_event('connect', run_async=False)
